@@ -136,6 +136,9 @@ def observe(out):
     }
 
 
+PROBE = {"writes_seen": 0, "writes_without_lock": 0}
+
+
 class watch_unlocked:
     """Schedule probe: a reader (what `jade show-status` does) is run right after every file write that
     Cluster makes while the cluster lock is NOT held; what it reads goes to `sink` as (file, snapshot).
@@ -153,8 +156,10 @@ class watch_unlocked:
 
         def probe(text, filename):
             orig_fn(text, filename)
+            PROBE["writes_seen"] += 1
             if os.path.dirname(os.path.abspath(filename)) == os.path.abspath(out) and \
                     not os.path.exists(os.path.join(out, "cluster_config.json.lock")):
+                PROBE["writes_without_lock"] += 1
                 sink.append((os.path.basename(filename), observe(out)))
         Cluster._serialize_file = staticmethod(probe)
         return self
@@ -169,7 +174,8 @@ def unlocked_problems(ops, mid):
     for k, fname, snap in mid:
         inv = [x for x in inv_problems(snap) if x[0] != "version-file"]
         if inv:
-            p.append((f"status-inv@unlocked-write:{ops[k]['op']}",
+            method = {"round": "update_job_status", "resubmit": "prepare_for_resubmission"}.get(ops[k]["op"], ops[k]["op"])
+            p.append((f"status-inv@unlocked-write:{method}",
                       f"op {k} ({ops[k]['op']}) wrote {fname} without holding the cluster lock; a reader scheduled right after "
                       f"that write sees: {inv[0][1]}"))
     return p
